@@ -172,12 +172,14 @@ pub fn size_class(n: usize) -> &'static str {
     }
 }
 
+pub static FULL_HEX: std::sync::atomic::AtomicBool = std::sync::atomic::AtomicBool::new(false);
+
 pub fn hex(v: &[u64]) -> String {
     let n = nlimbs(v);
     if n == 0 {
         return "0x0".to_string();
     }
-    if n > 12 {
+    if n > 12 && !FULL_HEX.load(std::sync::atomic::Ordering::Relaxed) {
         // abbreviated: length + fnv of contents + top and bottom limb
         let mut h = 0xcbf29ce484222325u64;
         for w in &v[..n] {
